@@ -406,5 +406,16 @@ _ADD = {
  'C16': ' Names, values and comments contain bytes >= 0x80 (including the bytes the BOMs are made of; a line that would start with a complete BOM gets a leading blank); UTF-8 / UTF-16 BE / UTF-16 LE / UTF-32 BE byte order marks at the start of the file.',
  'C19': ' The sleep lower bound is exact (elapsed time is measured around the call); the ipc_new scenario also opens the now existing segment under the same interruptions and requires the uninterrupted outcome (size, bytes, names survive a non-owner free).',
 }
-for _k, _v in _ADD.items():
+_ADD6 = {
+ 'C05': ' Every real-thread round also runs a thread not started by plibsys that calls p_uthread_current twice (same handle), with an explicit reference kept across its exit / dropped before it / none (sanitizers decide a handle released early).',
+ 'C06': ' The race step alternates OPEN-mode and CREATE-mode opens parked at pause points 1..6 while the owner frees the name: a CREATE-mode open succeeds at every point and carries the given value while its name exists (enumerated).',
+ 'C08': ' Every read buffer carries a canary behind the reported count: bytes beyond min(len, used) are not the read\'s to write.',
+ 'C09': ' Every other datagram read goes through p_socket_receive; a reported count above the buffer length is a violation; the SHORT fault does not apply to datagram sockets.',
+ 'C12': ' Values of keys k % 3 == 1 may be NULL pointers (notif bit 4, trees without value notifier); op F inserts with every library allocation failing (a new key is not stored, an equal key is replaced).',
+ 'C13': ' Op F: an insert during which every library allocation fails; balance is checked after it and after every later operation.',
+ 'C14': ' Op F: an insert during which every library allocation fails destroys nothing (new key) or exactly the replaced pair.',
+ 'C18': ' A scenario child that burns 20 s of its own CPU time (ITIMER_VIRTUAL) is inside a library call that does not return: verdict no-return.',
+ 'C19': ' The ipc_new scenario also replaces, in CREATE mode and under the same interruptions, a stale semaphore name made with the platform call (the name must then carry the given value); EINTR is planned at invocations 1..9 of sem_open / shm_open.',
+}
+for _k, _v in list(_ADD.items()) + list(_ADD6.items()):
     PROPS[_k].rule += _v
